@@ -959,6 +959,39 @@ def k_used_input_ids(R, N, K):
     return out
 
 
+def k_render_object_literal(R, N, K):
+    """codegen::render_object_literal (default-value constructors of variables) on every input graph with an object
+    literal that spells out none of the fields: must terminate (no walk over the schema's input cycles)."""
+    req, lst = qual_indices(R)
+    f = R.fn('render_object_literal')
+    R.vm.loop_watch = ['render_object_literal']
+    out = []
+    for start in range(N):
+        holder = {}
+
+        def setup(st, B, start=start):
+            schema, g = input_graph(B, st, N, K, 1, f'ol{N}{K}{start}_', req, lst)
+            holder['g'] = g
+            bq = B.struct('BoundQuery', query=B.cell(empty_query(B)), schema=B.cell(schema))
+            R.vm.push_call(st, f, [B.cell(B.btreemap([])), B.newtype('InputId', bv(start, 32)), B.cell(bq)], None, None)
+        outs, _ = R.explore(f'render_object_literal(N={N},K={K})', setup)
+        g = holder.get('g')
+        for o in outs:
+            if o.kind in ('loop', 'limit'):
+                m = R.vm.model(o.state)
+                out.append(dict(kernel='render_object_literal', prop='C17', what=o.msg, start=f'I{start}', graph=graph_of_model(m, g) if m else None))
+            elif o.kind != 'return':
+                m = R.prove('render_object_literal', o, z3.BoolVal(False), 'no panic')
+                if m is not None:
+                    out.append(dict(kernel='render_object_literal', prop='C17', what=f'{o.kind}: {o.msg}', start=f'I{start}', graph=graph_of_model(m, g)))
+            else:
+                R.obligations += 1
+                R.discharged += 1
+        R.sample(dict(kernel='render_object_literal', types=N, fields_per_type=K, start=f'I{start}', paths=len(outs)))
+    R.vm.loop_watch = []
+    return out
+
+
 # ---------------------------------------------------------------- fragment / selection graphs (C17, C12, C06)
 
 def fragment_graph(B, st, F, S, prefix, nest=False, first_abstract=False):
@@ -1451,10 +1484,72 @@ def flat_tokens(ts):
     return out
 
 
+def sources_of(vm, expr, leaves, st=None):
+    """which of the z3 String constants `leaves` a string term is computed from.  Syntactically through concatenation,
+    if-then-else and the uninterpreted case conversions (summaries.heck_result records their arguments); a term without
+    any leaf inside (a keyword found by the table search is rendered from the *table* entry, `table[i] ++ "_"`) is
+    attributed to the leaf the path condition makes it equal to, up to the `_` escape (solver query)."""
+    derived = vm.__dict__.get('derived_from', {})
+    leaf_keys = {l.sexpr(): i for i, l in enumerate(leaves)}
+
+    def syntactic(e):
+        seen, out, todo = set(), set(), [e]
+        while todo:
+            x = todo.pop()
+            if isinstance(x, str):
+                continue
+            k = x.sexpr()
+            if k in seen:
+                continue
+            seen.add(k)
+            if k in leaf_keys:
+                out.add(leaf_keys[k])
+            else:
+                todo += list(x.children())
+        return out
+
+    e = expr
+    for _ in range(8):
+        if isinstance(e, str):
+            e = z3.StringVal(e)
+        found = syntactic(e)
+        if found:
+            return found
+        k = e.sexpr()
+        if k in derived:
+            e = derived[k]
+            continue
+        break
+    out = set()
+    if st is not None:
+        for i, leaf in enumerate(leaves):
+            is_it = z3.Or(e == leaf, e == z3.Concat(leaf, z3.StringVal('_')))
+            if vm.solver.check(*(st.pc + [z3.Not(is_it)])) == z3.unsat:
+                out.add(i)
+    return out
+
+
+def enum_arms(toks, enum_ident_pred=None):
+    """(variant ident, literal) pairs of the two hand-written matches in the flattened token list of one generated enum:
+    `Name :: Variant => "lit" ,` (Serialize) and `"lit" => Ok ( Name :: Variant ) ,` (Deserialize)"""
+    ser, de = [], []
+    n = len(toks)
+    for i in range(n):
+        t = toks[i]
+        if t[0] == 'lit' and i >= 5 and toks[i - 1] == ('punct', '=>') and toks[i - 2][0] == 'ident' and toks[i - 3] == ('punct', '::') and toks[i - 4][0] == 'ident':
+            ser.append((toks[i - 2][1], t[1]))
+        if t[0] == 'lit' and i + 7 < n and toks[i + 1] == ('punct', '=>') and toks[i + 2] == ('ident', 'Ok') and toks[i + 3][0] == 'open' and toks[i + 4][0] == 'ident' \
+                and toks[i + 5] == ('punct', '::') and toks[i + 6][0] == 'ident':
+            de.append((toks[i + 6][1], t[1]))
+    return ser, de
+
+
 def k_enum_definition(R, nv):
     """the per-enum closure of codegen::enums::generate_enum_definitions on an enum with `nv` values whose names (and the
-    enum's name) are unconstrained strings, normalization symbolic: the string literals of the hand-written Serialize /
-    Deserialize impls are exactly the schema's value names, in the same order as the variants they are paired with."""
+    enum's name) are unconstrained strings, normalization symbolic.  Claims: the string literals of the hand-written
+    Serialize / Deserialize matches are exactly the schema's value names (each once per match), and in every arm the
+    variant identifier is computed from the very value name the arm's literal spells (so each value maps to *its own*
+    variant and back, whatever order the arms are emitted in)."""
     import vm as _vm
     cf, cid, caps = closure_of(R, 'generate_enum_definitions', 2)
     norms = R.L.enums['Normalization']
@@ -1465,6 +1560,9 @@ def k_enum_definition(R, nv):
 
     def setup(st, B):
         st.pc.append(z3.ULT(norm, len(norms)))
+        for a_ in range(nv):
+            for b_ in range(a_ + 1, nv):
+                st.pc.append(vals[a_] != vals[b_])        # value names of one enum are distinct (schema validity)
         enm = B.struct('StoredEnum', name=StrV(ename), variants=VecV([StrV(v) for v in vals]))
         cap_vals = {'normalization': B.cell(SymEnum(norm, {i: () for i in range(len(norms))})), 'derives': Tokens(()), 'serde': B.cell(Opaque('syn::Path', 'serde'))}
         if set(caps) != set(cap_vals):
@@ -1479,23 +1577,27 @@ def k_enum_definition(R, nv):
                 out.append(dict(kernel='enum_definition', prop='C17', what=f'{o.kind}: {o.msg}', model=dict(values=[m.eval(v, model_completion=True).as_string() for v in vals])))
             continue
         toks = flat_tokens(o.value)
-        lits = [t[1] for t in toks if t[0] == 'lit' and (isinstance(t[1], str) or (z3.is_expr(t[1]) and t[1].sort() == z3.StringSort()))]
-        # string literals appear twice per value: `Ctor => "V",` (Serialize) then `"V" => Ok(Ctor),` (Deserialize)
+        ser, de = enum_arms(toks)
         claims = {}
-        claims['C10:literal-count'] = z3.BoolVal(len(lits) == 2 * nv)
-        if len(lits) == 2 * nv:
+        claims['C10:arm-count'] = z3.BoolVal(len(ser) == nv and len(de) == nv)
+        for label, arms in (('serialize', ser), ('deserialize', de)):
+            if len(arms) != nv:
+                continue
+            # every value name is the literal of exactly one arm
             for i in range(nv):
-                claims[f'C10:serialize-literal-{i}'] = zstr(lits[i]) == vals[i]
-                claims[f'C10:deserialize-literal-{i}'] = zstr(lits[nv + i]) == vals[i]
-        # the idents paired with the literals: the variant idents of the enum body, in order
-        idents = [t[1] for t in toks if t[0] == 'ident']
+                claims[f'C10:{label}-literal-for-value-{i}'] = z3.Sum([z3.If(zstr(lit) == vals[i], 1, 0) for _id, lit in arms]) == 1
+            # the identifier of an arm derives from the value its literal spells
+            for k, (ident, lit) in enumerate(arms):
+                src = sources_of(R.vm, ident if isinstance(ident, str) else zstr(ident), vals, o.state)
+                lit_src = sources_of(R.vm, lit if isinstance(lit, str) else zstr(lit), vals, o.state)
+                claims[f'C10:{label}-arm-{k}-pairs-a-value-with-its-own-variant'] = z3.BoolVal(len(src) == 1 and src == lit_src)
         m = R.prove('enum_definition', o, z3.And(*claims.values()), f'{nv} enum values')
         if m is not None:
             failing = [nm for nm, c in claims.items() if not z3.is_true(m.eval(c, model_completion=True))]
             ev = lambda x: m.eval(x, model_completion=True)
             out.append(dict(kernel='enum_definition', prop='C10', what=failing[0] if failing else '?',
                             model=dict(enum=ev(ename).as_string(), values=[ev(v).as_string() for v in vals], normalization=norms[ev(norm).as_long()],
-                                       literals=[(ev(zstr(l)).as_string() if not isinstance(l, str) else l) for l in lits])))
+                                       serialize_arms=[(ev(zstr(i_)).as_string(), ev(zstr(l_)).as_string()) for i_, l_ in ser][:4])))
     R.sample(dict(kernel='enum_definition', values=nv, paths=len(outs)))
     return out
 
